@@ -65,6 +65,24 @@ def sameSchema (a b : DNode) : Bool := a.mod == b.mod && a.name == b.name
 def isKeyLeaf (n : DNode) : Bool := n.kind == .leaf true
 end DNode
 
+/-- one line of the pre-order listing of a subtree -/
+structure FlatNode where
+  mod : Bytes
+  name : Bytes
+  kind : Kind
+  value : Bytes
+  depth : Nat
+  deriving DecidableEq, Repr
+
+mutual
+/-- pre-order listing of a subtree: a form of the tree with decidable equality -/
+def DNode.flat : DNode → Nat → List FlatNode
+  | .mk m n k v ch, d => ⟨m, n, k, v, d⟩ :: DNode.flatList ch (d + 1)
+def DNode.flatList : List DNode → Nat → List FlatNode
+  | [], _ => []
+  | x :: r, d => DNode.flat x d ++ DNode.flatList r d
+end
+
 /-- schema node (compiled, choice/case already flattened; for an operation the children are those of the
     direction the caller selected: input, or output with `LYD_NEW_VAL_OUTPUT` / `output = 1`) -/
 inductive SNode where
